@@ -43,3 +43,12 @@ func (s *streamPool) VerifState() VerifPoolState {
 	sort.Strings(st.Opening)
 	return st
 }
+
+// VerifPoolLockFree reports whether the pool mutex can be taken right now (build tag verif only).
+func (s *streamPool) VerifPoolLockFree() bool {
+	if s.mu.TryLock() {
+		s.mu.Unlock()
+		return true
+	}
+	return false
+}
